@@ -283,20 +283,25 @@ class load(DataStreamProcessor):
 
     @staticmethod
     def rename_duplicate_headers(duplicate_headers, case_sensitive=True, deduplicate_format=' (%s)'):
+        def header_key(header):
+            return header if case_sensitive else header.lower()
+
+        occurrences = {}
+        for header in duplicate_headers:
+            occurrences[header_key(header)] = occurrences.get(header_key(header), 0) + 1
+        # names which are already in use (and are not going to be renamed)
+        taken = set(key for key, count in occurrences.items() if count == 1)
         counter = {}
         headers = []
-        header_keys = []
         for header in duplicate_headers:
-            header_key = header
-            if not case_sensitive:
-                header_key = header_key.lower()
-            header_keys.append(header_key)
-            counter.setdefault(header_key, 0)
-            counter[header_key] += 1
-            if counter[header_key] > 1:
-                if counter[header_key] == 2:
-                    prev_index = header_keys.index(header_key) 
-                    headers[prev_index] = ('%s' + deduplicate_format) % (headers[prev_index], 1)
-                header = ('%s' + deduplicate_format) % (header, counter[header_key])
+            key = header_key(header)
+            if occurrences[key] > 1:
+                while True:
+                    counter[key] = counter.get(key, 0) + 1
+                    candidate = ('%s' + deduplicate_format) % (header, counter[key])
+                    if header_key(candidate) not in taken:
+                        break
+                taken.add(header_key(candidate))
+                header = candidate
             headers.append(header)
         return headers
